@@ -718,6 +718,7 @@ func main() {
 	}
 	// deterministic sweep over address forms: for every host:port spelling, every decoration of the address, then the
 	// host itself and every host that differs only in port / case / trailing dot / brackets
+	var sweep []Case // large cases: spread over the run (one every 35 cases) so that no Coq shard gets them all
 	sweepHosts := []string{"registry.internal:5000", "registry.internal", "registry.internal:443", "REGISTRY.internal:5000", "registry.internal.:5000",
 		"10.0.0.1:5000", "10.0.0.1", "[::1]:5000", "[::1]", "::1", "registry.internal:", ":5000", "index.docker.io:443"}
 	for hi, hp := range sweepHosts {
@@ -731,7 +732,7 @@ func main() {
 			}
 		}
 		c.Ops = append(c.Ops, Op{Op: "query", Host: "docker.io", Ref: 2}, Op{Op: "query", Host: "", Ref: 2})
-		corpus = append(corpus, c)
+		sweep = append(sweep, c)
 	}
 	for _, list := range [][]string{bareAddrs, badAddrs} {
 		c := Case{Connected: true}
@@ -743,14 +744,24 @@ func main() {
 			c.Ops = append(c.Ops, Op{Op: "pull", Img: 8, Auth: up(SA{Kind: kind, Text: t})},
 				Op{Op: "query", Host: "registry.internal:5000", Ref: 2}, Op{Op: "query", Host: "registry.internal", Ref: 2}, Op{Op: "query", Host: "", Ref: 2})
 		}
-		corpus = append(corpus, c)
+		sweep = append(sweep, c)
 	}
 	for _, c := range corpus {
 		emit(c)
 	}
 	r := hx.NewRng(ctx.Seed)
 	for i := len(corpus); i < ctx.N; i++ {
+		if len(sweep) > 0 && i%35 == 10 {
+			emit(sweep[0])
+			sweep = sweep[1:]
+			continue
+		}
 		emit(gen(r.Fork()))
+	}
+	if ctx.N >= 50 { // a short run still gets the whole sweep
+		for _, c := range sweep {
+			emit(c)
+		}
 	}
 	ctx.Finish()
 }
